@@ -493,6 +493,7 @@ class Env:
     def __init__(self, *, noise_key: bytes | None = None, name: str = "dev", max_iterations: int = 200_000) -> None:
         global CURRENT
         install_seams()
+        noise_ref.reset_ephemerals(0)
         self.loop = SimLoop(max_iterations=max_iterations)
         self.loop.env = self  # type: ignore[attr-defined]
         asyncio.set_event_loop(self.loop)
